@@ -171,7 +171,7 @@ func c17R3(c *Ctx, r *Report) {
 			}
 			// (b) loop variable bounded by cnt: enclosing for/while with condition (idx < cnt)
 			for p := x.Parent; p != nil && !ok; p = p.Parent {
-				if (p.Kind == "ForStmt" || p.Kind == "WhileStmt") {
+				if p.Kind == "ForStmt" || p.Kind == "WhileStmt" {
 					p.Walk(func(y *CNode) bool {
 						if y.Kind == "BinaryOperator" && y.Opcode == "<" && y.Inner[0].Src() == idx && y.Inner[1].Src() == cnt {
 							ok = true
